@@ -26,7 +26,7 @@ GROUP_THEOREMS = {
     'values': ['get_changed_class_is_model', 'copy_slice_dest_is_model', 'copy_slice_vals_is_model', 'copy_slice_vals_zero_div',
                'global_slice_subset_is_model', 'insert_slice_interleave_is_model', 'insert_sample_interleave_is_model',
                'slice_step_is_model', 'get_changed_class_no_slice_dim_is_model'],
-    'insert': ['change_class_is_model', 'insert_slice_is_model', 'insert_non_slice_is_model', 'insert_sample_is_model'],
+    'insert': ['change_class_is_model', 'reclassify_is_model', 'insert_slice_is_model', 'insert_non_slice_is_model', 'insert_sample_is_model'],
     'data': ['file_idx_is_model', 'file_idx_volume_is_model', 'get_data_trim_is_model'],
 }
 
